@@ -24,12 +24,15 @@ def affine(e):
         if len(mono) == 0:
             const += c.re
             continue
-        if len(mono) != 1:
-            return None
-        a, p = mono[0]
-        if p != 1:
-            return None
-        coeffs[a] = coeffs.get(a, Q(0)) + c.re
+        if len(mono) == 1 and mono[0][1] == 1:
+            key = mono[0][0]
+        else:
+            # a product or power is treated as a quantity of its own (a sound linear relaxation: relations between the
+            # product and its factors are simply not used)
+            if any(not isinstance(p, int) and getattr(p, "denominator", 1) != 1 for _, p in mono) or any(isinstance(p, Expr) for _, p in mono):
+                return None
+            key = ("mono",) + tuple((a.id, p) for a, p in mono)
+        coeffs[key] = coeffs.get(key, Q(0)) + c.re
     return coeffs, const
 
 
@@ -103,10 +106,10 @@ def feasible(constraints):
                 f1, f2 = Q(1) / vu, Q(1) / (-vl)
                 c = {}
                 for a, v in cu.items():
-                    if a is not var:
+                    if a != var:
                         c[a] = c.get(a, Q(0)) + v * f1
                 for a, v in cl.items():
-                    if a is not var:
+                    if a != var:
                         c[a] = c.get(a, Q(0)) + v * f2
                 c = {a: v for a, v in c.items() if v != 0}
                 other.append((c, ku * f1 + kl * f2, su or sl))
